@@ -97,6 +97,8 @@ class Namer:
         return 'I' + self.tname(k)
 
     def argname(self, k, pos):
+        if getattr(self.spec.nodes[k], 'blank', False):
+            return '_'
         if self.adv:
             return ['err', 'cleanup', 'v', '_', 'string', 'error', 'vrt'][pos % 7]
         return 'a%d' % k
@@ -137,7 +139,7 @@ def ident_refs(spec, k, form=None):
     if n.kind == IVALUE:
         return [('const', 700 + 10 * k)]
     if n.kind == BIND:
-        return ident_refs(spec, n.target)
+        return ident_refs(spec, n.target)[:1]
     if n.kind == FIELD:
         return [ident_refs(spec, n.parent)[n.fieldno]]
     if n.kind == WSTRUCT:
@@ -226,6 +228,9 @@ def render_package(spec, pkgname, modpath, other_pkg=None):
             tn = nodes[tk]
             if tn.kind == FIELD:
                 recv = nm.comp_tname(tn.parent, tn.fieldno)
+            elif tn.kind == WSTRUCT:
+                w('func (x *%s) VID() int { return ids%s(*x)[0] }\n' % (nm.tname(tk), nm.tname(tk)))
+                continue
             else:
                 recv = '*' + nm.tname(tk) if tn.ptr else nm.tname(tk)
             w('func (x %s) VID() int { return x.ID }\n' % recv)
@@ -299,6 +304,8 @@ def render_package(spec, pkgname, modpath, other_pkg=None):
             tn = nodes[n.target]
             if tn.kind == FIELD:
                 return 'wire.Bind(new(%s%s), new(%s%s))' % (qual, nm.iname(k), qual, nm.comp_tname(tn.parent, tn.fieldno))
+            if tn.kind == WSTRUCT:
+                return 'wire.Bind(new(%s%s), new(*%s%s))' % (qual, nm.iname(k), qual, nm.tname(n.target))
             return 'wire.Bind(new(%s%s), new(%s%s%s))' % (qual, nm.iname(k), '*' if tn.ptr else '', qual, nm.tname(n.target))
         raise ValueError(n.kind)
 
@@ -459,6 +466,10 @@ def family_kinds():
             S([Node(FUNC, deps=[(1, 'val'), (2, 'val'), (4, form)]), Node(FUNC, deps=[(3, 'val')], has_err=True), Node(FUNC, deps=[(3, 'val')], has_cleanup=True),
                Node(BIND, target=4), tgt], (0, 'val'), 'binding to %s ptr=%s, I consumed twice, C once' % (tkind, tptr))
             S([Node(BIND, target=1), tgt], (0, 'val'), 'binding is the result, to %s ptr=%s' % (tkind, tptr))
+    # a binding to the pointer form of a struct provider; the struct is also consumed directly
+    S([Node(FUNC, deps=[(1, 'val'), (2, 'ptr')], has_err=True), Node(BIND, target=2), Node(WSTRUCT, deps=[(3, 'val'), (4, 'val')], extra_fields=1), Node(FUNC, has_cleanup=True), Node(ARG)], (0, 'val'),
+      'binding to *S of a struct provider, S also consumed as pointer')
+    S([Node(BIND, target=1), Node(WSTRUCT, deps=[(2, 'val')], star=True, prevented=1), Node(VALUE)], (0, 'val'), 'binding to a struct provider is the result')
     # a binding whose concrete type is provided by FieldsOf in the same set
     S([Node(FUNC, deps=[(1, 'val')]), Node(BIND, target=2), Node(FIELD, parent=3, fieldno=1), Node(ARG, ncomp=2)], (0, 'val'), 'binding to a field-provided type (same set)')
     # fields of an argument / value / function result, value and pointer struct, value and pointer-to-field consumers
@@ -964,6 +975,17 @@ def family_frontend():
              'side1': {'side1.go': 'package side1\n\nimport "example.com/corpus/{PKG}/reg"\n\nfunc init() { reg.Register() }\n'},
              'side2': {'side2.go': 'package side2\n\nimport "example.com/corpus/{PKG}/reg"\n\nfunc init() { reg.Register() }\n'}}
     specs.append(RawSpec(files, 'dot-imported wire package (Build, NewSet, Bind) and two blank imports in the injector file', family='frontend', extra_pkgs=extra, compile_props=['C01', 'C15']))
+    # --- struct provider with an embedded field, "*" and explicit names; injector with named results and blank / unnamed parameters
+    files = {
+        'providers.go': ('package {PKG}\n\nimport "example.com/corpus/vrt"\n\ntype Base struct{ ID int }\ntype Other struct{ ID int }\ntype S struct {\n\tBase\n\tO    Other\n\tskip int\n}\n\n'
+                         'func NewBase() Base {\n\tid, _ := vrt.Call(1, false)\n\treturn Base{ID: id}\n}\n\nfunc NewR(s *S, s2 S) (R, error) {\n\tid, err := vrt.Call(0, true, s.Base.ID, s.O.ID, s.skip, s2.Base.ID, s2.O.ID)\n\tif err != nil {\n\t\treturn R{}, err\n\t}\n\treturn R{ID: id}, nil\n}\n\ntype R struct{ ID int }\n'),
+        'wire.go': ('//go:build wireinject\n// +build wireinject\n\npackage {PKG}\n\nimport "github.com/google/wire"\n\n'
+                    'func Inject(_ Other) (result R, err error) {\n\tpanic(wire.Build(NewBase, NewR, wire.Struct(new(S), "Base", "O")))\n}\n\nfunc Inject2(Other) (R, error) {\n\tpanic(wire.Build(NewBase, NewR, wire.Struct(new(S), "O", "Base")))\n}\n'),
+        'zz_driver.go': ('//go:build !wireinject\n// +build !wireinject\n\npackage {PKG}\n\nimport "example.com/corpus/vrt"\n\nvar _ func(Other) (R, error) = Inject\n\nfunc VDrive() {\n\tfor round := 0; round < 2; round++ {\n\t\tvrt.Round = round\n\t\tfor which := 0; which < 2; which++ {\n'
+                         '\t\t\toid := vrt.ArgID("o")\n\t\t\tspec := &vrt.Spec{RetErr: true, Nodes: []vrt.Node{{Name: "NewR", Kind: vrt.KFunc, HasErr: true, Params: []vrt.Ref{{Node: 1}, {Node: 2}, {Node: -1, Const: 0}, {Node: 1}, {Node: 2}}}, {Name: "NewBase", Kind: vrt.KFunc}, {Name: "o", Kind: vrt.KArg}}, Result: []vrt.Ref{{Node: 0}}, ArgIDs: [][]int{nil, nil, {oid}}}\n'
+                         '\t\t\tvrt.Reset()\n\t\t\tvar res R\n\t\t\tvar err error\n\t\t\tif which == 0 {\n\t\t\t\tres, err = Inject(Other{ID: oid})\n\t\t\t} else {\n\t\t\t\tres, err = Inject2(Other{ID: oid})\n\t\t\t}\n\t\t\tvrt.Check(spec, vrt.Outcome{Result: []int{res.ID}, Err: err, CleanupNil: true})\n\t\t}\n\t}\n}\n'),
+    }
+    specs.append(RawSpec(files, 'struct provider with an embedded field consumed as *S and S (built twice), named results, blank and unnamed injector parameters', family='frontend'))
     # --- several provider-set variables declared in one var spec
     files = {
         'providers.go': ('package {PKG}\n\nimport (\n\t"example.com/corpus/vrt"\n\t"github.com/google/wire"\n)\n\ntype A struct{ ID int }\ntype B struct{ ID int }\ntype R struct{ ID int }\n\n'
@@ -1102,7 +1124,7 @@ def family_random(seed=0, count=60):
                     ok = False
                     break
             elif kind == BIND:
-                cands = [j for j in avail if nodes[j].kind in (FUNC, ARG, VALUE) and nodes[j].ncomp == 1 and not any(nodes[q] is not None and nodes[q].kind == BIND and nodes[q].target == j for q in avail)]
+                cands = [j for j in avail if ((nodes[j].kind in (FUNC, ARG, VALUE) and nodes[j].ncomp == 1) or nodes[j].kind == WSTRUCT) and not any(nodes[q] is not None and nodes[q].kind == BIND and nodes[q].target == j for q in avail)]
                 if not cands:
                     ok = False
                     break
@@ -1114,6 +1136,7 @@ def family_random(seed=0, count=60):
                 forms[i] = ['ptr'] if nodes[i].ptr else ['val']
             elif kind == ARG:
                 nodes[i] = Node(ARG, ptr=rnd.random() < 0.3, ncomp=rnd.choice([1, 1, 2, 3]))
+                nodes[i].blank = rnd.random() < 0.3
                 forms[i] = ['ptr'] if nodes[i].ptr else ['val']
             else:
                 nodes[i] = Node(IVALUE)
